@@ -4,7 +4,7 @@ from=$1; to=$2; shift 2
 pids=${@:-C01 C02 C03 C04 C05 C06 C07 C08 C09 C10 C11 C12 C13 C14 C15 C16 C17 C18 C19 C20}
 cd "$(dirname "$0")/.."
 mkdir -p /var/tmp/verif-sweep
-for p in $pids; do for s in $(seq $from $to); do echo "$p $s"; done; done | xargs -P 4 -L 1 sh -c '
+for s in $(seq $from $to); do for p in $pids; do echo "$p $s"; done; done | xargs -P 4 -L 1 sh -c '
   p=$0; s=$1
   out=$(VERIF_SEED=$s ./check $p 2>&1); rc=$?
   if [ $rc -ne 0 ]; then echo "FAIL $p seed=$s rc=$rc $(echo "$out" | grep "VIOLATION\|INFRA" | head -2 | tr "\n" " ")"; echo "$out" > /var/tmp/verif-sweep/$p-$s.log; fi'
